@@ -185,7 +185,7 @@ def splice(scratch_repo, groups):
         for fn, attr_lines in attr_files.get(f, []):
             text = insert_attrs(text, fn, attr_lines, f)
         for g in by_file.get(f, []):
-            text += "\n#[cfg(kani)]\n#[allow(warnings)]\nmod %s {\n    use super::*;\n%s\n}\n" % (
+            text += "\n#[cfg(kani)]\n#[allow(warnings)]\npub(crate) mod %s {\n    use super::*;\n%s\n}\n" % (
                 g.module, g.body)
         write(path, text)
     cargo = os.path.join(scratch_repo, "Cargo.toml")
